@@ -51,14 +51,15 @@ def setup():
     import sqlalchemy.util._collections as ucoll
     import sqlalchemy.util as sautil
     from sqlalchemy.util import LRUCache
+    from sqlalchemy import column as sa_column
     _m.update(m)
-    _m.update(lambdas=lambdas, ucoll=ucoll, sautil=sautil, LRUCache=LRUCache)
+    _m.update(lambdas=lambdas, ucoll=ucoll, sautil=sautil, LRUCache=LRUCache, sa_column=sa_column)
     # warm-up
     run_case({"kind": "seq", "lcache": 50, "cache": 50, "hist": [[f, [1, 2, 3, 1, 0]] for f in FAMS], "switches": None})
     CS.freeze_gc()
 
 
-FAMS = ["scalar", "in_list", "column", "chain3", "chain4", "where_lambda", "expr_closure", "orm_criteria"]
+FAMS = ["scalar", "in_list", "column", "chain3", "chain4", "where_lambda", "expr_closure", "base_table", "orm_criteria"]
 COLS = ["id", "qty"]
 OWNERS = ["alice", "bob", "carl"]
 
@@ -132,6 +133,28 @@ def dir_chain(n, b1, b2, b3, v1, v2):
     return s.order_by(items.c.id)
 
 
+def lam_base(lc, tbl, lo, n, links):
+    """the *first* link closes over a table (changes the structure of everything after it); the later links only hold scalars"""
+    select, lambda_stmt, column = _m["select"], _m["lambda_stmt"], _m["sa_column"]
+    stmt = lambda_stmt(lambda: select(tbl.c.id), lambda_cache=lc)
+    stmt += lambda s: s.where(column("id") > lo)
+    if links >= 3:
+        stmt += lambda s: s.order_by(column("id")).limit(n)
+    if links >= 4:
+        stmt += lambda s: s.offset(0)
+    return stmt
+
+
+def dir_base(tbl, lo, n, links):
+    select, column = _m["select"], _m["sa_column"]
+    s = select(tbl.c.id).where(column("id") > lo)
+    if links >= 3:
+        s = s.order_by(column("id")).limit(n)
+    if links >= 4:
+        s = s.offset(0)
+    return s
+
+
 def lam_where(v, w):
     items, select = _m["items"], _m["select"]
     return select(items.c.id).where(lambda: items.c.qty > v).where(lambda: items.c.id != w).order_by(items.c.id)
@@ -185,6 +208,10 @@ def make(fam, a, lc):
         b1, b2, b3 = a[0] % 2, a[1] % 2, a[2] % 2
         v1, v2 = [0, 2, 4][a[3] % 3], [6, 9, 12][a[4] % 3]
         return lam_chain(lc, n, b1, b2, b3, v1, v2), dir_chain(n, b1, b2, b3, v1, v2), "core", "n=%d b=%d%d%d v=%s,%s" % (n, b1, b2, b3, v1, v2)
+    if fam == "base_table":
+        tbl = [items, _m["User"].__table__, _m["Address"].__table__][a[0] % 3]
+        lo, n, links = [0, 1, 3][a[1] % 3], [2, 5][a[2] % 2], 2 + a[3] % 3
+        return lam_base(lc, tbl, lo, n, links), dir_base(tbl, lo, n, links), "core", "tbl=%s lo=%s n=%s links=%d" % (tbl.name, lo, n, links)
     if fam == "where_lambda":
         v, w = [1, 4, 7][a[0] % 3], 1 + a[1] % 7
         return lam_where(v, w), dir_where(v, w), "core", "v=%s w=%s" % (v, w)
